@@ -24,6 +24,7 @@ import CLModel.Proofs.C15Dup
 import CLModel.Proofs.C20Dup
 import CLModel.Proofs.C15RDtd
 import CLModel.Proofs.C15Comment
+import CLModel.Proofs.C15Hist
 namespace C15
 open Merge AR
 
@@ -787,5 +788,138 @@ example :
     serialize (versionDict 0 [{ kind := .section, ekey := .str [97], val := [], all := [91, 97, 93], oid := (0, 0) },
       w [10], e 97 [97, 61, 49], w [10]]) = [97, 61, 49, 10, 10] := by
   decide
+
+/-! ### round 5: `merge_channels` inside a process HISTORY
+
+`merge_channels` owns no parser: it uses the shared instances of `parser.__constructors`, the same objects
+`ContentComparer.compare`, `L10nLinter.lint_file`, `serialize` and every `getParser(name).readFile/readUnicode/
+readContents` use.  `MergeH` (CLModel/Merge/History.lean) puts the merge into the state machine of C18
+(`HistM.S`: the singletons' current Context, the heap of Contexts, `Junk.junkid`, `filter_empty_lines`, the entry
+points, every memo of the tools).  The theorems say that no earlier operation of the process can show in a merge. -/
+
+section history
+open HistM MergeH
+
+/-- The merge output of every reachable state is `Merge.mergeTexts` of the arguments of THAT call — corollary of
+    `C18.out_independent_all` (`pureOut` of a merge is `mergeTexts`, and nothing of it is renamed by the counters). -/
+theorem merge_result_history_free (ep : EpEnv) (s : S) (h : Reachable ep s) (f : P.Fmt) (texts : List (Array Nat)) :
+    (HistM.step s (.mergeChannels f texts)).2 = .chan (mergeTexts f texts) := by
+  have h1 := C18.out_independent_all ep s h (.mergeChannels f texts) (by simp [HistM.Op.closed])
+  rw [h1]
+  rfl
+
+/-- … and it holds in EVERY state of the machine, reachable or not: the merge reads no component of the state
+    (it REPLACES the parser's Context for every version, `HistM.parseAll`). -/
+theorem merge_result_state_free (s s' : S) (f : P.Fmt) (texts : List (Array Nat)) :
+    (HistM.step s (.mergeChannels f texts)).2 = (HistM.step s' (.mergeChannels f texts)).2 ∧
+    (HistM.step s (.mergeChannels f texts)).2 = .chan (mergeTexts f texts) :=
+  ⟨rfl, rfl⟩
+
+/-- `merge_channels(name, resources)` — parser lookup, refusal and merge — returns `Merge.mergeChannels name
+    resources` in every state of a process without third-party parser plugins. -/
+theorem merge_named_history_free (s : S) (hep : NoPlugins s.ep) (name : List Nat) (texts : List (Array Nat)) :
+    (mergeNamed s name texts).2 = mergeChannels name texts :=
+  C15H.mergeNamed_out s hep name texts
+
+/-- Whole histories: run ANY sequence of operations that interleaves merges with the other operations of the tools
+    (`getParser` on any name, `readUnicode`, `walk`, `compare`, `lint_file`, `serialize`, matcher / configuration /
+    checker operations), from ANY state: the result of every merge step is the function `promised` of that step's own
+    arguments — `Merge.mergeChannels name texts`, to which every other theorem of this file applies. -/
+theorem merge_history_free (ops : List MergeH.Op) (s : S) (hep : NoPlugins s.ep) :
+    (ops.zip (MergeH.run s ops).2).map (fun p => observed p.1 p.2) = ops.map promised :=
+  C15H.run_promised ops s hep
+
+/-- Refusal does not depend on the history either: in every state the merge raises MergeNotSupportedError exactly
+    when no pattern of `parser.__constructors` matches THIS name — whatever names were looked up (and refused, or
+    accepted) before. -/
+theorem refusal_history_free (s : S) (hep : NoPlugins s.ep) (name : List Nat) (texts : List (Array Nat)) :
+    (mergeNamed s name texts).2 = .error .mergeNotSupported ↔ getParserClass name = none := by
+  rw [merge_named_history_free s hep name texts]
+  exact refused_iff_unsupported name texts
+
+/-- A lookup leaves no trace: `getParser(path)` (found or not) and a refused `merge_channels` return the process
+    state they were called in — there is no memo of names or extensions a later lookup could read. -/
+theorem lookup_leaves_no_trace (s : S) (path : List Nat) (texts : List (Array Nat)) :
+    (HistM.step s (.getParser path)).1 = s ∧
+    (HistM.getParser s.ep path = none → (mergeNamed s path texts).1 = s) := by
+  refine ⟨rfl, fun h => ?_⟩
+  rw [C15H.refused_state s path texts h]
+
+/-- "Merging a single version returns the input" in the middle of any history: for a name whose parser is the one of
+    regex format `f`, in every state, under the hypotheses of `merge_single_total` only. -/
+theorem merge_single_in_any_history (s : S) (hep : NoPlugins s.ep) (name : List Nat) (f : P.Fmt)
+    (hn : (getParserClass name).bind parserOfClass = some (.regex f)) (t : Array Nat)
+    (hb : f = .dtd → t[0]? ≠ some 0xFEFF) :
+    ∃ es ents, P.walk f t = .done es ∧ toEnts f t 0 es.zipIdx = .ok ents ∧
+      (NodupKeys ents → (mergeNamed s name [t]).2 = .ok t.toList) := by
+  obtain ⟨es, ents, h1, h2, h3⟩ := merge_single_total f t hb
+  refine ⟨es, ents, h1, h2, fun hk => ?_⟩
+  rw [merge_named_history_free s hep name [t], ← h3 hk]
+  unfold mergeChannels
+  cases hc : getParserClass name with
+  | none => simp [hc] at hn
+  | some cls =>
+    simp only [hc, Option.bind_some] at hn
+    simp only [hn]
+
+/-- … and "merging identical versions returns the input", likewise. -/
+theorem merge_identical_in_any_history (s : S) (hep : NoPlugins s.ep) (name : List Nat) (f : P.Fmt)
+    (hn : (getParserClass name).bind parserOfClass = some (.regex f)) (t : Array Nat) (n : Nat)
+    (hb : f = .dtd → t[0]? ≠ some 0xFEFF) :
+    ∃ es ents, P.walk f t = .done es ∧ toEnts f t 0 es.zipIdx = .ok ents ∧
+      ((∀ e ∈ es, e.kind ≠ .junk) → NodupKeys ents → (mergeNamed s name (List.replicate (n + 1) t)).2 = .ok t.toList) := by
+  obtain ⟨es, ents, h1, h2, h3⟩ := merge_identical_total f t n hb
+  refine ⟨es, ents, h1, h2, fun hj hk => ?_⟩
+  rw [merge_named_history_free s hep name _, ← h3 hj hk]
+  unfold mergeChannels
+  cases hc : getParserClass name with
+  | none => simp [hc] at hn
+  | some cls =>
+    simp only [hc, Option.bind_some] at hn
+    simp only [hn]
+
+/-- the states the theorems are used in: everything a fresh interpreter reaches by merges and other operations -/
+theorem history_reachable (ep : EpEnv) (ops : List MergeH.Op) (s : S) (h : Reachable ep s) (hp : ∀ op ∈ ops, op.plain) :
+    Reachable ep (MergeH.run s ops).1 ∧ (MergeH.run s ops).1.ep = ep :=
+  ⟨C15H.run_reachable ep ops s h hp, C15H.reachable_ep ep _ (C15H.run_reachable ep ops s h hp)⟩
+
+/-! non-vacuity of the history theorems -/
+
+/-- `a=1⏎`, `z=9⏎` -/
+def hX : Array Nat := #[97, 61, 49, 10]
+def hY : Array Nat := #[122, 61, 57, 10]
+/-- `a.ini`, `m.xml` (a look-alike: no parser), `strings.xml` -/
+def hIni : List Nat := [97, 46, 105, 110, 105]
+def hXml : List Nat := [109, 46, 120, 109, 108]
+def hStr : List Nat := [115, 116, 114, 105, 110, 103, 115, 46, 120, 109, 108]
+
+/-- the history of the missed class: a merge whose last parsed resource is X; a refused look-alike `*.xml` name is
+    looked up; ANOTHER file is loaded into the same parser and walked; the merge of X again; a refused merge; the
+    Android name of the same extension; a parse; a merge of the other file -/
+def hist : List MergeH.Op :=
+  [.merge hIni [hX], .other (.getParser hXml), .other (.read .ini hY), .other (.rewalk .ini),
+   .merge hIni [hX], .merge hXml [hX], .merge hStr [hX], .other (.base (.parse .ini hY)), .merge hIni [hY]]
+
+/-- what the arguments promise (evaluated): X, X again (not the file loaded in between), refusal for `m.xml`, the
+    external Android parser for `strings.xml` (NOT a refusal although `m.xml` was refused before), Y -/
+example : hist.map promised
+   = [some (.ok hX.toList), none, none, none, some (.ok hX.toList), some (.error .mergeNotSupported),
+      some (.error .external), none, some (.ok hY.toList)] := by
+  set_option maxRecDepth 100000 in decide
+
+/-- … and the run from a fresh interpreter returns exactly that -/
+example : (hist.zip (MergeH.run S.init hist).2).map (fun p => observed p.1 p.2) = hist.map promised :=
+  merge_history_free hist S.init rfl
+
+example : Reachable (.plugins []) (MergeH.run S.init hist).1 :=
+  (history_reachable (.plugins []) hist S.init Reachable.init (by intro op h; simp [hist] at h; rcases h with rfl | rfl | rfl | rfl | rfl | rfl | rfl | rfl | rfl <;> simp [MergeH.Op.plain, HistM.Op.mutatesConfig])).1
+
+/-- NEGATION WITNESS for `NoPlugins`: with a third-party parser registered whose `use(path)` accepts `m.xml`, the
+    process does not refuse that name while `Merge.mergeChannels` (no plugins) does -/
+def plugS : S := { S.init with ep := .plugins [(.lit 109, [80])] }
+example : (mergeNamed plugS hXml [hX]).2 = .error .external ∧ mergeChannels hXml [hX] = .error .mergeNotSupported := by
+  set_option maxRecDepth 100000 in decide
+
+end history
 
 end C15
